@@ -236,7 +236,7 @@ def hist_case(draw):
     for _ in range(draw(st.integers(1, 4))):
         kind = draw(st.sampled_from(["rate", "data", "shift", "dtype", "same", "form"]))
         steps.append([kind, draw(st.sampled_from([2.0, 0.5, 4.0, 3.0, -1.0])), draw(st.integers(0, 2**31 - 1))])
-    return {"base": base, "steps": steps, "one_object": draw(st.booleans())}
+    return {"base": base, "steps": steps, "one_object": draw(st.sampled_from([False, True, "refusals"]))}
 
 
 def run_hist(case, stt):
